@@ -1,7 +1,7 @@
 (* C03 correspondence: histories executed on a real database + Authenticator by the Go harness
    (harness/db/verif_c03_test.go) are re-run here on the model with vm_compute and the observables compared
    (channel and role sets as sets). *)
-From SG Require Export Base.Prelude Base.Bytes C03.Access C03.Effective C03.AccessX.
+From SG Require Export Base.Prelude Base.Bytes C03.Access C03.Effective C03.AccessX C03.Session.
 Open Scope N_scope.
 
 Definition out_eqb (a b : out) : bool :=
@@ -49,8 +49,20 @@ Definition xout_eqb (a b : xout) : bool :=
   | _, _ => false
   end.
 
+(* long-lived sessions (Session.v): what the session's user object grants after each of its requests *)
+Definition sout_eqb (a b : sout) : bool :=
+  match a, b with
+  | SO x, SO y => out_eqb x y
+  | SView None, SView None => true
+  | SView (Some (c, r)), SView (Some (c', r')) => set_eqb c c' && set_eqb r r'
+  | SErr, SErr => true
+  | SClosed, SClosed => true
+  | _, _ => false
+  end.
+
 Inductive case :=
 | Case (ops : list op) (observed : list out)
+| SCase (ops : list sop) (observed : list sout)
 (* a history on the extended model: the collection is the default one?, the operations with the sequences the
    implementation allocated, the observables; the sequences must satisfy the hypothesis of the theorems (xwf) *)
 | XCase (def : bool) (ops : list xop) (observed : list xout).
@@ -58,6 +70,7 @@ Inductive case :=
 Definition check (c : case) : bool :=
   match c with
   | Case ops observed => list_eqb out_eqb (outs init ops) observed
+  | SCase ops observed => list_eqb sout_eqb (souts sinit ops) observed
   | XCase def ops observed => xwf (xinit def) ops && list_eqb xout_eqb (xouts (xinit def) ops) observed
   end.
 
